@@ -12,7 +12,11 @@ from props import c05_roundtrip as P5
 
 PROPERTY = 'C07'
 LEVEL = 'exploration'
-RULE = ('The 30 release protocols 1.8..1.18.1 (literal list in '
+RULE = ('Through a connection: the four serverbound play core packets, '
+        'carrying a context of another release, written through a logged-in '
+        'Connection at sampled releases must equal the reference frame of '
+        'the connection\'s release. '
+        'The 30 release protocols 1.8..1.18.1 (literal list in '
         'vlib/refproto.py, cross-checked against the library\'s release '
         'table) x the 23 core packets x field values (rotating boundary '
         'assignments per (release, packet) then Hypothesis random). Oracle: '
